@@ -41,6 +41,8 @@ def coq_query(q):
     if t[0] == "QProg":
         k, l = t[1].split(None, 1)
         return f"QProg {k} {l}%N"
+    if t[0] == "QRecycle":
+        return f"QRecycle {t[1]}%N"
     if t[0] == "QNat":
         a, b = t[1].split("] [")
         return f"QNat {a}]%N [{b}%N"
@@ -173,6 +175,37 @@ def nat_oracle(cs, ps, v):
     return None
 
 
+def recycle_oracle(cs, v):
+    """Three observation rounds of the same string, other one-character strings of the same UTF-8 length produced and
+    collected in between: every round must show the string's own characters (the property itself, no model)."""
+    if v[0] in (-9, -8):
+        return ("recycle-run-failed:%d:%d" % (v[0], v[1]), f"program failed / output unparsable: {v[:2]}")
+    want = [chr(c).encode("utf-8") for c in cs]
+    pos = 0
+    try:
+        for rd in range(3):
+            clen = v[pos]; pos += 1
+            got = []
+            for _ in range(2):
+                k = v[pos]; pos += 1
+                part = []
+                for _ in range(k):
+                    it, pos = parse_framed(v, pos)
+                    part.append(it)
+                got.append(part)
+            if clen != len(cs):
+                return ("recycled:char_len", f"round {rd + 1}: char_len()={clen} for {len(cs)} characters")
+            if got[0] != want:
+                return ("recycled:items", f"round {rd + 1}: the for-each yields {b''.join(got[0]).decode('utf-8', 'replace')!r}, not the string's characters")
+            if got[1] != want:
+                return ("recycled:index", f"round {rd + 1}: s[0..] gives {b''.join(got[1]).decode('utf-8', 'replace')!r}, not the string's characters")
+        if pos != len(v):
+            raise ValueError("trailing data")
+    except (ValueError, IndexError) as e:
+        return ("recycle-obs-unparsable", f"observation vector malformed: {e}")
+    return None
+
+
 def std_oracle(kind, q, v):
     """Python's own UTF-8 codec as an independent reference for the Rust std primitives."""
     if kind == "enc":
@@ -272,19 +305,21 @@ def run(ctx):
             return
         ncorp = run_corpus(ctx, hx)          # minimised failing inputs first
         rc, out = vlib.sh([hx, "--seed", str(ctx.seed), "--strings", str(n_strings), "--forms", str(forms),
-                           "--std", str(n_std)], timeout=1500)
+                           "--std", str(n_std), "--recycle", "60" if quick else "600", "--recycle-opts", "0,2" if quick else "0,1,2,3"], timeout=2400)
         if rc != 0:
             ctx.violation("c20:harness-crash", "hx_utf8 crashed (panic outside run_program?)",
                           {"profile": prof, "output_tail": out[-2000:]})
             return
-        cases, meta, srcs, nat_srcs = [], [], {}, {}
+        cases, meta, srcs, nat_srcs, rec_srcs = [], [], {}, {}, {}
         for line in out.split("\n"):
             p = line.split("\t")
             if p[0] == "G":
                 srcs[p[1]] = (p[2], p[3])
             elif p[0] == "H":
                 nat_srcs[p[1]] = p[3]
-            elif p[0] in ("S", "P", "N") and len(p) == 4:
+            elif p[0] == "I":
+                rec_srcs[p[1]] = p[3]
+            elif p[0] in ("S", "P", "N", "R") and len(p) == 4:
                 cases.append((coq_query(p[2]), zlist(p[3].split())))
                 meta.append((p[0], p[1], p[2], [int(x) for x in p[3].split()]))
         total += len(cases) + ncorp
@@ -298,6 +333,21 @@ def run(ctx):
                 if d:
                     nd += 1
                     ctx.violation("c20:std:" + m, d, {"query": q, "observed": v, "profile": prof})
+                continue
+            if tag == "R":
+                cs = scalars_of(q)
+                cid, aname, form, opt, gc = m.split(":")
+                dist.setdefault("recycle_runs (alphabet / gc schedule)", {})
+                key = aname + " " + gc
+                dist["recycle_runs (alphabet / gc schedule)"][key] = dist["recycle_runs (alphabet / gc schedule)"].get(key, 0) + 1
+                distinct.add(("rec", tuple(cs), form, opt, gc))
+                d = recycle_oracle(cs, v)
+                if d:
+                    nd += 1
+                    if nd <= 5:
+                        ctx.violation(f"c20:{d[0]}:{gc}", f"{d[1]} (string {''.join(map(chr, cs))!r}, {form}, -{opt}, GC schedule {gc}: mode.k, 2 = collect at every safepoint, 3 = every k-th)",
+                                      {"scalars": cs, "form": form, "opt": opt, "gc": gc, "observed": v[:120],
+                                       "program": vlib_unesc(rec_srcs.get(cid, "")), "profile": prof})
                 continue
             if tag == "N":
                 cs, ps = two_lists(q)
@@ -357,6 +407,11 @@ def run(ctx):
                                          "model": (m or "")[:600]} for i, m in zip(bad, mo)]
             for i in bad[:3]:
                 tag, m, q, v = meta[i]
+                if tag == "R":
+                    cid = m.split(":")[0]
+                    ctx.violation("c20:model-mismatch:recycle:" + m.split(":")[-1],
+                                  f"the three paths under a GC schedule differ from the model's prediction ({m})",
+                                  {"case": m, "query": q[:300], "observed": v[:120], "program": vlib_unesc(rec_srcs.get(cid, "")), "profile": prof})
                 if tag == "N":
                     cid = m.split(":")[0]
                     ctx.violation("c20:model-mismatch:natives:" + m.split(":")[1],
